@@ -61,6 +61,7 @@ fn main() {
         "C07" => props::c07::run(rest),
         "C08" => props::c08::run(rest),
         "C09" => props::c09::run(rest),
+        "C10" => props::c10::run(rest),
         "C11" => props::c11::run(rest),
         "C12" => props::c12::run(rest),
         "C13" => props::c13::run(rest),
